@@ -20,6 +20,18 @@ from ..bmc import compile_design, _install_init
 HEADER = '''from __future__ import annotations
 import cohdl
 from cohdl import Bit, BitVector, Unsigned, Signed, Port, Signal, Variable, Null, Full, std
+import contextlib as _ctxlib
+from cohdl._core import _context as _cohdl_context
+
+
+@_ctxlib.contextmanager
+def blk():
+    # nested block; std.block wraps the same two functions
+    _cohdl_context._enter_block(_cohdl_context.Block("", {}))
+    try:
+        yield
+    finally:
+        _cohdl_context._exit_block()
 
 
 def f_comb(a, b):
@@ -247,6 +259,11 @@ TREES = [
     ("view-actuals", False,
      ["sb = Signal[BitVector[3]](name='sb')", "LeafComb(a=self.v[2:0].unsigned, b=self.y, o=self.o1)", "LeafMix(a=self.x, b=self.v[3:1].unsigned, o=self.o2)", "LeafBits(x=self.x[2:1], o=self.ob)"],
      ["@std.concurrent", "def l():", "    self.o1 <<= f_comb(self.v[2:0].unsigned, self.y)", "    self.o2 <<= f_mix(self.x, self.v[3:1].unsigned)", "    self.ob <<= f_bits(self.x[2:1])"],
+     {"LeafComb", "LeafMix", "LeafBits"}),
+    ("instances-inside-nested-blocks", False,
+     ["s1 = Signal[Unsigned[3]](name='s1')", "with blk():", "    LeafComb(a=self.x, b=self.y, o=s1)", "    with blk():", "        LeafMix(a=s1, b=self.x, o=self.o2)", "        with blk():", "            LeafBits(x=self.v[1:0], o=self.ob)",
+      "LeafComb(a=s1, b=self.y, o=self.o1)"],
+     ["@std.concurrent", "def l():", "    s1 = f_comb(self.x, self.y)", "    self.o1 <<= f_comb(s1, self.y)", "    self.o2 <<= f_mix(s1, self.x)", "    self.ob <<= f_bits(self.v[1:0])"],
      {"LeafComb", "LeafMix", "LeafBits"}),
     ("inside-concurrent-context", False,
      ["@std.concurrent", "def l():", "    LeafComb(a=self.x, b=self.y, o=self.o1)", "    self.o2 <<= self.x - self.y", "    LeafBits(x=self.v[1:0], o=self.ob)"],
